@@ -172,6 +172,12 @@ func (lb *LB) linOf(v ssa.Value) lin {
 	if r := lb.fieldRep(v); r != nil {
 		v = r
 	}
+	if prm, ok := v.(*ssa.Parameter); ok && len(lb.extra) > 0 {
+		// a parameter that has the same constant value at every call site
+		if k, ok := pinnedIn(lb.extra, prm); ok {
+			return linConst(k)
+		}
+	}
 	switch x := v.(type) {
 	case *ssa.BinOp:
 		if bits, _, ok := intKind(x.Type()); ok && bits < 64 && (x.Op == token.ADD || x.Op == token.MUL || x.Op == token.SHL) {
@@ -820,7 +826,7 @@ func (lb *LB) defFacts(v lvar) []cons {
 				out = append(out, le(me.scale(p2), a), le(a, me.scale(p2).addScaled(linConst(p2-1), 1)))
 			}
 		case token.REM:
-			if k, ok := constInt(x.Y); ok && k > 0 {
+			if k, ok := lb.constOf(x.Y); ok && k > 0 {
 				out = append(out, le(me, linConst(k-1)))
 				if lb.nonneg(x.X, 0) {
 					out = append(out, ge(me, linConst(0)), le(me, a))
@@ -829,7 +835,7 @@ func (lb *LB) defFacts(v lvar) []cons {
 				}
 			}
 		case token.QUO:
-			if k, ok := constInt(x.Y); ok && k > 0 {
+			if k, ok := lb.constOf(x.Y); ok && k > 0 {
 				if lb.nonneg(x.X, 0) {
 					out = append(out, le(me.scale(k), a), le(a, me.scale(k).addScaled(linConst(k-1), 1)), ge(me, linConst(0)))
 				} else {
@@ -2591,4 +2597,16 @@ func (lb *LB) lowerRel(v ssa.Value, assume map[*ssa.Phi]relBound, depth int) rel
 		return cand
 	}
 	return fallback
+}
+
+// constOf: a constant, or a parameter pinned to one constant by the facts proven at every call site
+func (lb *LB) constOf(v ssa.Value) (int64, bool) {
+	if k, ok := constInt(v); ok {
+		return k, true
+	}
+	l := lb.linOf(v)
+	if len(l.c) == 0 {
+		return l.k, true
+	}
+	return 0, false
 }
